@@ -271,13 +271,17 @@ func (in *Interp) mutexUnlock(cell *Value, pos token.Pos) {
 
 func (in *Interp) rwLock(s Struct, pos token.Pos) {
 	w := &s[0].(Struct)[0]
+	// a writer waiting in Lock blocks new readers (sync.RWMutex's documented
+	// behaviour: recursive read locking can deadlock); s[2] counts waiting writers
+	s[2] = in.ts.Const(32, s[2].(*Term).val+1)
 	in.block(func() bool { return (*w).(*Term).val == 0 && s[1].(*Term).val == 0 }, "RWMutex.Lock", pos)
+	s[2] = in.ts.Const(32, s[2].(*Term).val-1)
 	*w = in.ts.Const(32, 1)
 }
 
 func (in *Interp) rwRLock(s Struct, pos token.Pos) {
 	w := &s[0].(Struct)[0]
-	in.block(func() bool { return (*w).(*Term).val == 0 }, "RWMutex.RLock", pos)
+	in.block(func() bool { return (*w).(*Term).val == 0 && s[2].(*Term).val == 0 }, "RWMutex.RLock", pos)
 	s[1] = in.ts.Const(32, s[1].(*Term).val+1)
 }
 
